@@ -11,7 +11,7 @@ use rtcp_types::*;
 pub const ENTRY_NAMES: [&str; 16] =
     ["Compound", "Packet", "App", "Bye", "Rr", "Sdes", "Sr", "Tfb", "Pfb", "Unknown", "ReportBlock", "Nack", "Fir", "Sli", "Rpsi", "Pli"];
 
-pub const PROBE_NAMES: [&str; 10] = [
+pub const PROBE_NAMES: [&str; 11] = [
     "accepted_padding_count_gt_body",
     "input_priv_prefix_len_ge_item_len",
     "fci_parser_accepted_len_not_multiple_of_4",
@@ -22,6 +22,7 @@ pub const PROBE_NAMES: [&str; 10] = [
     "sdes_chunk_ssrc_leading_zero_accepted",
     "priv_item_accepted",
     "two_iterators_interleaved",
+    "deliveries_with_bystander_traffic",
 ];
 
 #[derive(Clone, Debug)]
@@ -51,13 +52,16 @@ pub struct Obs {
     pub events: u64,
     pub fail: Option<Fail>,
     pub accepted: u32,
-    pub probes: [u64; 10],
+    pub probes: [u64; 11],
     pub iter_bound: usize,
+    /// a bystander: other, well-formed packets are parsed and read on the same thread between the
+    /// calls of this delivery's read-out (what a receiver handling two sessions does)
+    pub beside: bool,
 }
 
 impl Obs {
     pub fn new(log: bool) -> Obs {
-        Obs { hash: FNV_INIT, log: if log { Some(Vec::new()) } else { None }, cur: "", events: 0, fail: None, accepted: 0, probes: [0; 10], iter_bound: 32 }
+        Obs { hash: FNV_INIT, log: if log { Some(Vec::new()) } else { None }, cur: "", events: 0, fail: None, accepted: 0, probes: [0; 11], iter_bound: 32, beside: false }
     }
     #[inline]
     pub fn op(&mut self, name: &'static str) {
@@ -88,6 +92,86 @@ impl Obs {
     }
 }
 
+// ---------------------------------------------------------------------------------------
+// bystander traffic: fixed well-formed packets of every kind, with a geometry (size, count,
+// padding) unlike most generated ones
+// ---------------------------------------------------------------------------------------
+
+const BY_APP: &[u8] = &[0xa1, 204, 0, 4, 0, 0, 0, 1, b'n', b'a', b'm', b'e', 1, 2, 3, 4, 0, 0, 0, 4];
+const BY_BYE: &[u8] = &[0x82, 203, 0, 3, 0, 0, 0, 1, 0, 0, 0, 2, 2, b'o', b'k', 0];
+const BY_RR: &[u8] = &[0x81, 201, 0, 7, 0, 0, 0, 9, 0, 0, 0, 1, 2, 0, 0, 3, 0, 0, 0, 4, 0, 0, 0, 5, 0, 0, 0, 6, 0, 0, 0, 7];
+const BY_SR: &[u8] = &[
+    0x81, 200, 0, 12, 0, 0, 0, 9, 1, 1, 1, 1, 2, 2, 2, 2, 0, 0, 0, 3, 0, 0, 0, 4, 0, 0, 0, 5, 0, 0, 0, 1, 2, 0, 0, 3, 0, 0, 0, 4, 0, 0, 0, 5, 0, 0, 0, 6, 0, 0, 0, 7,
+];
+const BY_SDES: &[u8] = &[0x81, 202, 0, 3, 0, 0, 0, 9, 1, 3, b'a', b'b', b'c', 0, 0, 0];
+const BY_TFB: &[u8] = &[0x81, 205, 0, 3, 0, 0, 0, 1, 0, 0, 0, 2, 0, 10, 0, 5];
+const BY_PFB: &[u8] = &[0x82, 206, 0, 3, 0, 0, 0, 1, 0, 0, 0, 2, 0, 0x28, 0, 0x41];
+const BY_UNK: &[u8] = &[0x80, 210, 0, 1, 1, 2, 3, 4];
+const BY_COMPOUND: &[u8] = &[
+    0x81, 201, 0, 7, 0, 0, 0, 9, 0, 0, 0, 1, 2, 0, 0, 3, 0, 0, 0, 4, 0, 0, 0, 5, 0, 0, 0, 6, 0, 0, 0, 7, 0x82, 203, 0, 3, 0, 0, 0, 1, 0, 0, 0, 2, 2, b'o', b'k', 0,
+];
+
+fn beside_parse<'a, P: RtcpPacketParser<'a>>(o: &Obs, b: &'a [u8]) {
+    if !o.beside {
+        return;
+    }
+    if let Ok(p) = P::parse(b) {
+        let _ = (p.length(), p.count(), p.header_data());
+    }
+    let _ = Packet::parse(b).is_ok();
+}
+
+/// The bystander's packet for the parser with acceptance bit `bit`.
+fn beside_bytes(bit: u32) -> &'static [u8] {
+    match bit {
+        2 => BY_APP,
+        3 => BY_BYE,
+        4 => BY_RR,
+        5 => BY_SDES,
+        6 => BY_SR,
+        7 => BY_TFB,
+        8 => BY_PFB,
+        _ => BY_UNK,
+    }
+}
+
+/// Between two steps of an iterator of ours: the bystander walks its own views.
+fn beside_iter(o: &Obs) {
+    if !o.beside {
+        return;
+    }
+    if let Ok(mut c) = Compound::parse(BY_COMPOUND) {
+        let _ = c.next().map(|r| r.is_ok());
+        let _ = c.next().map(|r| r.is_ok());
+    }
+    if let Ok(s) = Sdes::parse(BY_SDES) {
+        for c in s.chunks() {
+            for i in c.items() {
+                let _ = (i.type_(), i.value().len());
+            }
+        }
+    }
+    if let Ok(f) = TransportFeedback::parse(BY_TFB) {
+        if let Ok(n) = f.parse_fci::<Nack>() {
+            let _ = n.entries().count();
+        }
+    }
+    if let Ok(f) = PayloadFeedback::parse(BY_PFB) {
+        if let Ok(n) = f.parse_fci::<Sli>() {
+            let _ = n.lost_macroblocks().count();
+        }
+    }
+    if let Ok(b) = Bye::parse(BY_BYE) {
+        let _ = (b.ssrcs().count(), b.reason().map(|r| r.len()));
+    }
+    if let Ok(r) = ReceiverReport::parse(BY_RR) {
+        let _ = r.report_blocks().count();
+    }
+    if let Ok(a) = App::parse(BY_APP) {
+        let _ = a.data().len();
+    }
+}
+
 fn hb(b: &[u8]) -> u64 {
     fnv1a(FNV_INIT ^ b.len() as u64, b)
 }
@@ -113,6 +197,9 @@ fn drain<I: Iterator>(o: &mut Obs, name: &'static str, mk: impl FnOnce() -> I, e
         match it.next() {
             Some(x) => {
                 n += 1;
+                if n <= 6 {
+                    beside_iter(o);
+                }
                 let v = f(o, x);
                 h = fnv1a(h, &v.to_le_bytes());
                 if n > bound {
@@ -1004,6 +1091,7 @@ macro_rules! typed {
         if let Ok(v) = r {
             $o.accepted |= 1 << $bit;
             note_padding_probe($o, $d, $min);
+            beside_parse::<$ty>($o, beside_bytes($bit));
             $ex(&v, $t, $o);
         }
     }};
@@ -1028,6 +1116,7 @@ pub fn run_packet(d: &[u8], t: &mut Tape, o: &mut Obs) {
     if let Ok(p) = r {
         o.accepted |= 1 << 1;
         note_padding_probe(o, d, 4);
+        beside_parse::<Unknown>(o, beside_bytes(2 + (d.len() as u32 / 4) % 8));
         ex_packet(&p, d, t, o);
     }
 }
@@ -1038,6 +1127,7 @@ pub fn run_compound(d: &[u8], t: &mut Tape, o: &mut Obs) {
     o.res(r.is_ok() as u64);
     let Ok(c) = r else { return };
     o.accepted |= 1;
+    beside_iter(o);
     o.op("Compound::fmt");
     o.res(format!("{c:?}").len().min(1 << 20) as u64);
     let extra = t.choose(6);
@@ -1162,6 +1252,10 @@ fn priv_probe(o: &mut Obs, d: &[u8]) {
 /// Returns Err on a panic (with the op in flight) -- other failures are left in `o.fail`.
 pub fn deliver(d: &[u8], t: &mut Tape, o: &mut Obs) -> Result<(), (PanicInfo, &'static str)> {
     o.iter_bound = 5 * d.len() + 32;
+    o.beside = t.choose(4) == 3;
+    if o.beside {
+        o.probes[10] += 1;
+    }
     priv_probe(o, d);
     let r = guarded(|| {
         run_compound(d, t, o);
